@@ -112,6 +112,12 @@ def generate(rng, tier):
             data = bytes([rng.choice([0, 1, 2, 3, 0x10, 0x20, 0xFF]) for _ in range(4)])
         pt = ["pt", S("T"), kind, enc]
         yield f"ptype {sx(pt)} {hx(data)} {pos} {sx(items)}", f"ptype-{kind if isinstance(kind, str) else 'enum'}"
+        if ctx and rng.random() < 0.4:
+            # the same type object decodes the same raw value again under other contexts (and once more under the
+            # first): the result is a function of the packet, not of what was decoded before
+            for m in rng.sample([0, 1, 2], 3) + [None]:
+                it2 = [items[0] if m is None else c06.P("M", "IntP", m), items[1]]
+                yield f"ptype {sx(pt)} {hx(data)} {pos} {sx(it2)}", "ptype-history"
     # booleans over float / string / binary encodings; enum over float and string encodings
     for _ in range(40 if tier == "quick" else 3000):
         data = rng.choice([b"\x00" * 4, rng.randbytes(4), b"\x00\x00\x00\x01", b"\x80\x00\x00\x00", b"AB\x00\x00"])
@@ -133,16 +139,30 @@ def generate(rng, tier):
         yield f"ptype {sx(['pt', S('T'), kind, enc])} {hx(data)} 0 ()", "ptype-enum-other"
 
 
+_objs = {}
+
+
+def cached(kind, tok, build):
+    """One library object per distinct request syntax, reused across requests: a result must not depend on what the
+    same calibrator / parameter type was asked before (no hidden state)."""
+    key = (kind, sx(tok))
+    if key not in _objs:
+        if len(_objs) > 400:
+            _objs.clear()
+        _objs[key] = build(tok)
+    return _objs[key]
+
+
 def impl(line):
     t = parse_sx(line)
     with warnings.catch_warnings():
         warnings.simplefilter("ignore")
         if t[0] == "cal":
-            c = xbuild.calibrator(t[1])
+            c = cached("cal", t[1], xbuild.calibrator)
             r = c.calibrate(xbuild.uV(t[2]))
             return f"ok {V(float(r))}"
         if t[0] == "ptype":
-            pt = xbuild.ptype(t[1])
+            pt = cached("ptype", t[1], xbuild.ptype)
             pkt = xbuild.packet(t[4], data=unhx(t[2]), pos=int(t[3]))
             p = pt.parse_value(pkt)
             return f"ok {xser.CLS[type(p).__name__]} {V(p)} {V(p.raw_value)} {pkt.raw_data.pos}"
